@@ -21,8 +21,8 @@ SPEC = {
             "variables and FB members; VAR_ACCESS; VAR_CONFIG values; tasks with SINGLE/INTERVAL and FB task "
             "bindings) x history of 12-16 steps over cycle(dt) / direct input write / restart(cold|warm) / "
             "restart+load / fault / access write / save / power cycle (new runtime + store [+ start-up restart] + "
-            "load); after every cold restart a freshly built twin receives the same continuation.  Cases 0-8 are "
-            "the recorded witnesses of the known findings (1, 2, 7, 8: regression cases).  non-trivial = a restart or power cycle happened after "
+            "load); after every cold restart a freshly built twin receives the same continuation.  Cases 0-9 are "
+            "the recorded witnesses of the known findings (1, 2, 7, 8, 9: regression cases).  non-trivial = a restart or power cycle happened after "
             "at least one executed cycle; distinct = by hash of the case's description + operation lines",
     "trusted_base": [
         "Lean 4.33.0 kernel; axioms per theorem listed under 'theorems'",
@@ -59,11 +59,12 @@ MANIFEST = {
                   "globals and program variables with retainable values keep their value, every other one has its declared "
                   "initial value; c09_cold_globals / c09_cold_program_vars: cold = declared initial values; "
                   "c09_restart_resets: time, fault latch, cycle counter, frames reset, task state re-seeded as at "
-                  "registration, images untouched by Warm and zeroed by Cold, everything static untouched; "
+                  "registration, images untouched by Warm and zero-filled WITH THEIR LENGTHS PRESERVED by Cold, drivers and "
+                  "everything static untouched; "
                   "c09_old_instances_untouched and c09_program_fb_recreated: what happens to FB instances; "
                   "c09_cold_fresh_partial: with no VAR_CONFIG values (the only remaining guard) a cold restart and a fresh "
                   "build agree on every variable path, FB member, clock, latch, counter, task state (any SINGLE initial "
-                  "value) and on all three process images; c09_bindings_live_partial: bindings rooted in globals stay "
+                  "value) and on all three process images (equal to the equally sized fresh images, lengths included); c09_bindings_live_partial: bindings rooted in globals stay "
                   "connected; c09_power_cycle_globals_partial: save+load moves exactly the retained retainable GLOBALS; "
                   "c09_warm_restart_load_partial: restart(Warm)+load keeps the warm clause when the file was saved from the "
                   "restarted state; c09_save_ok_store / c09_save_sequence / c09_save_failure_changes_nothing: after any "
